@@ -52,4 +52,18 @@ theorem readers_are_bytes_readers :
     (∀ a ∈ Gen.BigValues.serializeBytesReaderArgs, a = "bytes.NewReader") ∧
     Gen.BigValues.serializeBytesReaderArgs.length = Gen.BigValues.serializeBytesReaders.length := by decide
 
+/-- the JSON path modelled by `jsonChunks`: marshal, one `appendJsonToBuffer`, one `processBuffer`
+(candidate segment `buffer[chunkStart:valueOffset]`, cut iff `crossesBoundary`, then
+`chunkStart = valueOffset`; afterwards the buffer is re-sliced from `chunkStart`), and `Done`
+writing the remaining buffer as the final blob -/
+theorem json_chunker_shape :
+    Gen.BigValues.serializeJsonCalls =
+      ["types.MarshallJson", "newEmptyJsonChunker", "jsonChunker.appendJsonToBuffer", "jsonChunker.processBuffer",
+       "jsonChunker.Done"] ∧
+    Gen.BigValues.jsonProcessBufferBody =
+      "{ chunkStart := 0 err = j.jScanner.AdvanceToNextLocation() for err != io.EOF { if err != nil { return err } key := j.jScanner.currentPath.key value := j.jScanner.jsonBuffer[chunkStart:j.jScanner.valueOffset] if crossesBoundary(key, value) { err := j.createNewLeafChunk(ctx, key, value) if err != nil { return err } chunkStart = j.jScanner.valueOffset } err = j.jScanner.AdvanceToNextLocation() } if chunkStart > 0 { newValueOffset := j.jScanner.valueOffset - chunkStart newScanner := ScanJsonFromMiddle(j.jScanner.jsonBuffer[chunkStart:], j.jScanner.currentPath) newScanner.valueOffset = newValueOffset j.jScanner = &newScanner } return nil }" ∧
+    Gen.BigValues.jsonDoneNoCursor =
+      "if j.jCur == nil { // The remaining buffer becomes the final blob err := j.createNewLeafChunk(ctx, endOfDocumentKey, j.jScanner.jsonBuffer) if err != nil { return nil, err } return j.chunker.Done(ctx) }" :=
+  ⟨by decide, rfl, rfl⟩
+
 end DoltVerif.Tie.BigValues
